@@ -149,6 +149,10 @@ def option_sets(rng, n, L, D, count):
     # infeasible explicit periods and min_iter > max_iter
     out.append(dict(entry='solve_t', t=rng.choice([0, -n] if L else [n - 1, -1]) if (L or D) else feas[0], min_iter=0, max_iter=5, tol=1e-6, failures='ignore', errors='raise', offset=0))
     out.append(dict(entry='solve_t', t=feas[0], min_iter=4, max_iter=2, tol=1e-6, failures='ignore', errors='raise', offset=0))
+    # extreme tolerances: nothing moves by less than NaN, zero or a negative number; everything finite moves by less than +inf
+    for tol in (float('nan'), float('inf'), 0.0, -1.0):
+        out.append(dict(entry=rng.choice(['solve_t', 'solve']), t=feas[0], min_iter=rng.choice([0, 2]), max_iter=rng.choice([1, 4]), tol=tol, failures=rng.choice(['raise', 'ignore']),
+                        errors='raise', offset=0))
     return out
 
 
@@ -243,7 +247,7 @@ def compare_program(symbols_text, so, datasets, optsets, names, bopts=None):
                 if prev is not None and len(prev) == len(cur) and cur:
                     with np.errstate(all='ignore'):
                         mv = max(abs(a - b) for a, b in zip(cur, prev)) if cur else 0.0
-                    if np.isfinite(mv) and abs(mv - o['tol']) <= 1e-6 * max(o['tol'], mv):
+                    if np.isfinite(mv) and np.isfinite(o['tol']) and abs(mv - o['tol']) <= 1e-6 * max(o['tol'], mv):
                         borderline = True
                 prev = cur
             obs.append(dict(o=o, di=di, rp=rp, rf=rf, pv=p.values.copy(), fv=f.values.copy(), ps=''.join(p.status), fs=''.join(f.status),
